@@ -19,6 +19,7 @@ class EntryMonitor:
         self.oracle = oracle
         self.cfg = M.full_config(board.case['cores'][ci].get('config'))
         self.taken = []          # (tick, kind)
+        self.listeners = []      # callables (kind, expectation, pre_state) -> None
         self.install(board.cores[ci].arm)
 
     def install(self, arm):
@@ -49,6 +50,8 @@ class EntryMonitor:
         b = self.b
         self.taken.append((b.tick, kind))
         exp = EM.entry(kind, s)
+        for f in self.listeners:
+            f(kind, exp, s)
         route = {0x16: 'mon', 0x1a: 'hyp'}.get(exp['mode'], 'normal')
         b.count('exc.%s:%s->%s' % (kind, M.MODE_NAMES.get(s['cpsr'] & 0x1F, '?'), M.MODE_NAMES.get(exp['mode'], '?')))
         b.cover.add('entry|%s|%x|%x|%s|%d|%d%d' % (kind, s['cpsr'] & 0x1F, exp['mode'], route, (s['cpsr'] >> 5) & 1, s['sec'], s['virt']))
